@@ -354,49 +354,75 @@ def r_prechecks(ck: Checker) -> None:
 
 
 def r_clone(ck: Checker) -> None:
-    """The transform visitor works on a detached clone whenever the node it is given is attached (root or subtree)."""
-    from ..finite import discover_atoms, truth_table
+    """The transform visitor works on a detached clone whenever the node it is given is attached (root or subtree).
+    Decided path by path on the resolved function: what is handed to visit(), and where the result is put back."""
+    from ..dtree import decision_tree
+    from ..finite import k_none
 
     f = ck.repo.func(LNODE, "ASTTransformVisitor.transform")
     fn = f.node
     nodep = fn.args.args[1].arg
-    guards = [st for st in fn.body if isinstance(st, ast.If) and any(
-        isinstance(x, ast.Assign) and norm(x.targets[0]) == nodep and "duplicate(as_detached_clone=True)" in norm(x.value) for x in st.body)]
     what = ("transform clones every attached node (attached root or attached subtree) into a detached copy before visiting it, so a failing "
             "visitor cannot leave a partial rewrite in the live tree")
-    if len(guards) != 1:
-        ck.violation("R-LEG-CLONE", f, fn, what, construct=f"transform: {len(guards)} clone guards found")
-        return
-    g = guards[0]
-    atoms = discover_atoms(g.test)
     k_det = f"{nodep}.detached"
     k_root, k_sub = f"{nodep}.is_attached_root", f"{nodep}.is_attached_subtree"
-    ok = False
-    if atoms == [k_det]:
-        rows = truth_table(g.test, {k_det: (True, False)})
-        ok = all(bool(v) == (not a[k_det]) for a, v in rows)
-    elif set(atoms) == {k_root, k_sub}:
-        rows = truth_table(g.test, {k_root: (True, False), k_sub: (True, False)})
-        ok = all(bool(v) == (a[k_root] or a[k_sub]) for a, v in rows)
-    if not ok:
-        ck.violation("R-LEG-CLONE", f, g, what, construct=f"transform: the clone is made under `{norm(g.test)}` (attached subtrees / roots may be visited in place)")
-        return
-    # the local that remembers the attached original: bound to the parameter inside the guard, before the clone replaces it
-    keep = [norm(x.targets[0]) for x in g.body if isinstance(x, ast.Assign) and isinstance(x.targets[0], ast.Name) and norm(x.value) == nodep]
-    ov = keep[0] if keep else "orig_node"
-    remembered = bool(keep)
-    order_ok = remembered and [norm(x.targets[0]) for x in g.body if isinstance(x, ast.Assign)][:2] == [ov, nodep]
-    tries = [st for st in fn.body if isinstance(st, ast.Try)]
-    rw_ok = False
-    if len(tries) == 1:
-        t = tries[0]
-        visit = [x for x in t.body if isinstance(x, ast.Assign) and "visit(" in norm(x.value)]
-        rw = [x for x in t.body if isinstance(x, ast.If) and norm(x.test) == f"{ov} is not None" and [norm(y) for y in x.body] == [f"{ov}.replace_with({norm(visit[0].targets[0])})"]] if visit else []
-        rw_ok = bool(visit) and bool(rw) and t.body.index(visit[0]) < t.body.index(rw[0])
-    if order_ok and rw_ok:
-        ck.holds("R-LEG-CLONE", f, g, what, guard=norm(g.test))
+    k_att = f"{nodep}.is_attached"
+    clone = f"{nodep}.duplicate(as_detached_clone=True)"
+    body = [st for st in fn.body if not (isinstance(st, ast.Expr) and isinstance(st.value, ast.Constant))]
+    leaves = decision_tree(body, preset={k_none(nodep): False}, resolve="calls", try_as_body=True, max_atoms=10)
+    bad: list[str] = []
+    n_attached = 0
+    for lf in leaves:
+        if lf.outcome == "raise":
+            continue
+        a = lf.assign
+        unknown = set(a) - {k_det, k_root, k_sub, k_att, k_none(nodep)}
+        if unknown:
+            raise Unsupported(f"transform decides on {sorted(unknown)}", fn)
+        if k_det in a:
+            attached: bool | None = not a[k_det]
+        elif k_att in a:
+            attached = a[k_att]
+        elif k_root in a or k_sub in a:
+            attached = True if (a.get(k_root) or a.get(k_sub)) else (False if (a.get(k_root) is False and a.get(k_sub) is False) else None)
+        else:
+            attached = None
+        stmts, rv = lf.resolved(calls=True)
+        seq: list[ast.AST] = list(stmts) + ([ast.Expr(value=rv)] if rv is not None else [])
+        visits = [(i_, c) for i_, st in enumerate(seq) for c in ast.walk(st) if isinstance(c, ast.Call) and isinstance(c.func, ast.Attribute)
+                  and c.func.attr in ("visit", "generic_visit") and c.args and norm(c.func.value) in ("super()", "self")]
+        # the same call text occurs again wherever its result is used (calls are values on a resolved path): the first occurrence is the call
+        if not visits:
+            raise Unsupported("transform: a completing path does not visit anything", fn)
+        vi, vc = visits[0]
+        arg = norm(vc.args[0])
+        if attached is None:
+            if arg == nodep and len({norm(c.args[0]) for _, c in visits}) == 1:
+                bad.append("the node is visited as it is, whether attached or not (no detached clone is made)")
+                continue
+            raise Unsupported(f"transform: a path visits {arg[:50]} without deciding whether the node is attached", fn)
+        if attached:
+            n_attached += 1
+            if arg == nodep:
+                bad.append(f"on the path {dict(a)} an attached node is visited in place (a failing visitor leaves a partial rewrite in the live tree)")
+                continue
+            if arg != clone:
+                raise Unsupported(f"transform: an attached node is visited as {arg[:60]}", fn)
+            for i_, st in enumerate(seq):
+                for c in ast.walk(st):
+                    if isinstance(c, ast.Call) and isinstance(c.func, ast.Attribute) and c.func.attr == "replace_with":
+                        if norm(c.func.value) != nodep:
+                            raise Unsupported(f"transform: replace_with on {norm(c.func.value)[:40]}", fn)
+                        if i_ < vi:
+                            bad.append("the original is replaced before the visit has succeeded")
+        elif arg not in (nodep, clone):
+            raise Unsupported(f"transform: a detached node is visited as {arg[:60]}", fn)
+    if bad:
+        ck.violation("R-LEG-CLONE", f, fn, what, evaluations=len(leaves), construct=f"transform: {bad[0]}")
+    elif not n_attached:
+        raise Unsupported("transform: no path for an attached node found", fn)
     else:
-        ck.violation("R-LEG-CLONE", f, fn, what, construct="transform: original not remembered before cloning / replace_with not applied after a successful visit only")
+        ck.holds("R-LEG-CLONE", f, fn, what, evaluations=len(leaves))
 
 
 def run(ck: Checker) -> None:
